@@ -30,7 +30,10 @@ META = {
                   "changed in between (revoked / granted); each answer is judged against Merge with the permissions "
                   "held at that moment. Equality with Merge also demands that usable proxy nodes are shown and redirects to usable targets "
                   "kept ('merges its commands'); a redirect whose target the player may not use must lead nowhere. "
-                  "Redirects go to other top-level proxy commands (alias style), to the dispatcher root or to "
+                  "Backend trees contain aliases that redirect to another backend root command (vanilla /tp -> "
+                  "/teleport): an untouched alias must still lead to the backend's target subtree, also when a proxy "
+                  "command replaced that target at the top level. Proxy redirects go to other top-level proxy commands "
+                  "(alias style), to the dispatcher root or to "
                   "the parent command (cyclic; the received graph is followed up to the cycle). Origin of a top-level node is told by the executable flag "
                   "(proxy nodes executable, backend nodes not). The restricted flag (0x20) that the proxy sets on "
                   "its nodes is recorded but not judged. AnnounceProxyCommands is on (the default).",
